@@ -126,3 +126,13 @@ def register(claim):
           NOTE_COMMON + " The timing half of the property (never disconnects a responsive peer / always disconnects a dead one within ~3 intervals for every "
           "arrival pattern, interval and tick phase) is a timed-trace behaviour depending on wall-clock reads and sleep granularity: NOT decided by this check.",
           "DESIGN.md#c12")
+
+    claim("C06", "CFG with exception edges (must-pass-through of the restoring writes), transitive SQL effects of the handler's journal calls, folded tag sets compared with the encoder's emitted/skipped sets, guard extraction",
+          "Static, all journals/requests: every normal and exceptional path from the rewind of next_num_out to an exit passes the restore of the once-saved value, "
+          "and RESENDREQ_HANDLING is left on every exit; tags written into a journaled copy replace or are absence-guarded; the deleted tags are exactly the "
+          "encoder's own non-skipped ones, 34 kept, 43=Y, OrigSendingTime read from 52 before its deletion; the no-replay set covers all session types and a "
+          "copy is re-sent only under the negative membership test and a truthy should_replay.",
+          NOTE_COMMON + " Three known findings share one cause (the rewind goes through a journal-truncating renumbering): journaled messages after BeginSeqNo are "
+          "deleted, EndSeqNo does not bound the tail gap fill, no range validation before mutation. Contiguity arithmetic of the gap-fill chain over arbitrary "
+          "journal content is not decided.",
+          "DESIGN.md#c06")
